@@ -80,6 +80,11 @@ type concResult struct {
 }
 
 func exploreCase(body func(fails *[]string, mu *sync.Mutex), opt sched.Options, freeRuns int, a *run.Acc) (res concResult) {
+	return exploreCaseShard(body, opt, freeRuns, 0, 1, a)
+}
+
+// exploreCaseShard explores one shard of the schedule tree (see sched.ExploreShard).
+func exploreCaseShard(body func(fails *[]string, mu *sync.Mutex), opt sched.Options, freeRuns int, shard, nshards int, a *run.Acc) (res concResult) {
 	res = concResult{byPreempt: map[int]int{}, outcomes: map[string]int{}}
 	t0 := time.Now()
 	defer func() { res.elapsed = time.Since(t0) }()
@@ -101,7 +106,7 @@ func exploreCase(body func(fails *[]string, mu *sync.Mutex), opt sched.Options, 
 		var mu sync.Mutex
 		body(&fails, &mu)
 	}
-	st := sched.Explore(wrapped, opt, func(r sched.Result) bool {
+	st := sched.ExploreShard(wrapped, opt, shard, nshards, func(r sched.Result) bool {
 		res.points += r.Points
 		msg := ""
 		switch {
